@@ -138,7 +138,8 @@ def ref_eval(n, graph):
 
     def ev(u):
         if u not in memo:
-            memo[u] = probe.combine(u, [ev(t) for _, t in rl_of(graph[u])])
+            hs = [ev(t) for _, t in rl_of(graph[u])]
+            memo[u] = None if probe.returns_none(u) else probe.combine(u, [probe.NONE_H if h is None else h for h in hs])
         return memo[u]
     return {u: ev(u) for u in range(n)}
 
